@@ -253,7 +253,7 @@ func init() {
 		spec := &mc.Spec{
 			Level: "exploration",
 			Rule: "one forest per execution (dirs a, b, a/c; files a/x, b/x, x; zero or one symlink at l or a/l over 13 target kinds (relative, absolute, dangling, through /proc/self both absolute and climbing there relatively, the head of a chain of 40 links — the most the kernel follows), thorough: also both with a second link l2); in it every pathname of ≤ maxComps components over {a,b,c,x,l,.,..} × {relative, absolute} × {plain, trailing slash, doubled slash} " +
-				"plus /proc/self and /proc/thread-self aliases × cwd ∈ {root, a} × dirfd encoding ∈ {AT_FDCWD sign-extended, AT_FDCWD zero-extended, directory fd, directory fd with garbage in the upper half, closed fd, a directory whose name ends in ' (deleted)' as cwd and as dirfd} × every traced path syscall/flag word of the tier; for five of the names also × placement of the string in the tracee {ordinary, ending at an unmapped page, write-only page, execute-only page}, " +
+				"plus /proc/self and /proc/thread-self aliases × cwd ∈ {root, a} × dirfd encoding ∈ {AT_FDCWD sign-extended, AT_FDCWD zero-extended, directory fd, directory fd with garbage in the upper half, closed fd, a directory whose name ends in ' (deleted)' as cwd and as dirfd} × every traced path syscall/flag word of the tier; for five of the names also × placement of the string in the tracee {ordinary, ending at an unmapped page, write-only page, execute-only page, straddling a boundary between two readable pages with 1 byte / half / all but the last character / everything but the terminator before it}, " +
 				"issued by a real tracee under runner/ptrace with a recording soft-ban policy. Oracle: the kernel's own resolution of the same (dirfd, pathname) in the harness (O_PATH[|O_NOFOLLOW] + readlink of /proc/self/fd), access class from the call and flags. " +
 				"non-trivial: the pathname is not already canonical; distinct = (forest, call, dirfd encoding, pathname, answer)",
 			Bound: map[string]any{"max_components": maxComps, "targets": targets,
@@ -407,7 +407,7 @@ func c02forestRun(x *mc.X, links map[string]string, calls []c02call, comps []str
 					// unmapped one, a write-only page, an execute-only page — the kernel reads all of them on the tracee's behalf
 					places := []string{""}
 					if placed[name] && (e.name == "atfdcwd" || e.name == "dirfd") {
-						places = append(places, "@edge", "@wo", "@xo")
+						places = append(places, "@edge", "@wo", "@xo", "@st1", "@stm", "@stl", "@stn")
 					}
 					for _, place := range places {
 						ps := []string{name}
